@@ -42,7 +42,7 @@ TABLE = [
     (r'^v[35]::shared::MqttShared::next_id$', 'assert', r'^Overflow:Add$', 'DISCHARGED:next-id', 'inflight_idx <= 65534 at every exit of next_id (C06.id-discipline), so +1 cannot overflow u16', 1),
     (r'router::RouterService<.*>::call::\{closure#0\}$', 'index', r'^index\(arg1\.0\.handlers\)$', 'DISCHARGED:router-index',
      'indices stored in the router (and in its alias cache) are handlers.len() at registration time; create() builds one service per registered handler', 2),
-    (r'^v[35]::client::connection::dispatch::\{closure#0\}::\{closure#0\}$', 'index', r'^index\(arg1\.1\)$', 'ASSUMED',
+    (r'^v[35]::client::connection::dispatch::\{closure#0\}::\{closure#\d+\}$', 'index', r'^index\(arg1\.1\)$', 'ASSUMED',
      'client router: index registered by Client::resource as handlers.len() before push (same construction as the server router)', 1),
     # --- guarded arithmetic proven by the local guard prover (kept here so an unguarded variant is reported)
     # --- API preconditions: documented application misuse, not triggerable by the peer
